@@ -530,5 +530,9 @@ func c19Sig(class, family, kind string, tr *c19Truth) string {
 			}
 		}
 	}
-	return "C19:" + class + "|family=" + family + "|store=" + kind
+	if strings.HasPrefix(family, "host=") {
+		return "C19:" + class + "|" + family
+	}
+	// the scenario family is part of the witness, not of the signature
+	return "C19:" + class + "|store=" + kind
 }
